@@ -97,6 +97,95 @@ func c08Calls(fd *ast.FuncDecl) []string {
 	return l
 }
 
+// c08OptionSites lists, for the given loader files, every composite literal of type interp.Options
+// ("file:func: Field=source, …") and every condition guarding a call of interp.Interpolate ("file:func: cond").
+func c08OptionSites(files []string) (lits []string, guards []string) {
+	for _, rel := range files {
+		f := parse(rel)
+		for _, d := range f.Decls {
+			fd, ok := d.(*ast.FuncDecl)
+			if !ok || fd.Body == nil {
+				continue
+			}
+			where := rel + ":" + fd.Name.Name
+			ast.Inspect(fd.Body, func(n ast.Node) bool {
+				switch x := n.(type) {
+				case *ast.CompositeLit:
+					if x.Type != nil && src(x.Type) == "interp.Options" {
+						var fs []string
+						for _, e := range x.Elts {
+							if kv, ok := e.(*ast.KeyValueExpr); ok {
+								fs = append(fs, src(kv.Key)+"="+src(kv.Value))
+							} else {
+								fs = append(fs, "?"+src(e))
+							}
+						}
+						lits = append(lits, where+": "+strings.Join(fs, ", "))
+					}
+				case *ast.IfStmt:
+					calls := false
+					ast.Inspect(x.Body, func(m ast.Node) bool {
+						if _, nested := m.(*ast.IfStmt); nested && m != ast.Node(x) {
+							return false
+						}
+						if c, ok := m.(*ast.CallExpr); ok && src(c.Fun) == "interp.Interpolate" {
+							calls = true
+						}
+						return true
+					})
+					if calls {
+						guards = append(guards, where+": "+src(x.Cond))
+					}
+				}
+				return true
+			})
+		}
+	}
+	return
+}
+
+// c08UnguardedInterpolate counts the calls of interp.Interpolate in the loader that are not inside any if statement
+// whose condition mentions SkipInterpolation.
+func c08UnguardedInterpolate(files []string) []string {
+	var out []string
+	for _, rel := range files {
+		f := parse(rel)
+		for _, d := range f.Decls {
+			fd, ok := d.(*ast.FuncDecl)
+			if !ok || fd.Body == nil {
+				continue
+			}
+			var walk func(n ast.Node, guarded bool)
+			walk = func(n ast.Node, guarded bool) {
+				ast.Inspect(n, func(m ast.Node) bool {
+					if m == n {
+						return true
+					}
+					switch x := m.(type) {
+					case *ast.IfStmt:
+						g := guarded || strings.Contains(src(x.Cond), "!opts.SkipInterpolation")
+						if x.Init != nil {
+							walk(x.Init, guarded)
+						}
+						walk(x.Body, g)
+						if x.Else != nil {
+							walk(x.Else, guarded)
+						}
+						return false
+					case *ast.CallExpr:
+						if src(x.Fun) == "interp.Interpolate" && !guarded {
+							out = append(out, rel+":"+fd.Name.Name)
+						}
+					}
+					return true
+				})
+			}
+			walk(fd.Body, false)
+		}
+	}
+	return out
+}
+
 func c08GenFacts() (string, string) {
 	var b strings.Builder
 	b.WriteString(header + "namespace CV.Gen\n\n")
@@ -129,16 +218,28 @@ func c08GenFacts() (string, string) {
 		})
 	}
 	fmt.Fprintf(&b, "/-- loader/loader.go Options.clone(): `Field=source` pairs of the composite literal -/\ndef c08_cloneCopies : List String := [%s]\n", joinLean(copied))
+	// where the loader builds interpolation options and where it calls Interpolate
+	loaderFiles := []string{"loader/loader.go", "loader/include.go", "loader/extends.go"}
+	lits, guards := c08OptionSites(loaderFiles)
+	fmt.Fprintf(&b, "/-- every `interp.Options{…}` literal of the loader: `file:func: Field=source, …` -/\ndef c08_optionLiterals : List String := [%s]\n", joinLean(lits))
+	fmt.Fprintf(&b, "/-- every condition guarding a call of `interp.Interpolate` in the loader: `file:func: cond` -/\ndef c08_interpolateGuards : List String := [%s]\n", joinLean(guards))
+	fmt.Fprintf(&b, "/-- calls of `interp.Interpolate` in the loader outside every `!opts.SkipInterpolation` guard -/\ndef c08_unguardedInterpolate : List String := [%s]\n", joinLean(c08UnguardedInterpolate(loaderFiles)))
 	// printed bodies (without comments) of the functions the C08 models were written against
 	ipl := parse("interpolation/interpolation.go")
 	ms := parse("loader/mapstructure.go")
+	// the YAML number readers live in utils/stringutils.go since the round-5 repair (utils.ParseYAMLInt / ParseYAMLFloat);
+	// on a tree that still has them in loader/interpolate.go read them there, so that only C08's pin breaks
+	yn, ynInt, ynFloat := parse("utils/stringutils.go"), "ParseYAMLInt", "ParseYAMLFloat"
+	if c08FuncDecl(yn, ynInt) == nil {
+		yn, ynInt, ynFloat = ip, "parseYAMLInt", "parseYAMLFloat"
+	}
 	bodies := [][2]string{
 		{"c08_body_Interpolate", funcBody(ipl, "", "Interpolate")},
 		{"c08_body_recursiveInterpolate", funcBody(ipl, "", "recursiveInterpolate")},
 		{"c08_body_newPathError", funcBody(ipl, "", "newPathError")},
 		{"c08_body_getCasterForPath", funcBody(ipl, "Options", "getCasterForPath")},
-		{"c08_body_parseYAMLInt", funcBody(ip, "", "parseYAMLInt")},
-		{"c08_body_parseYAMLFloat", funcBody(ip, "", "parseYAMLFloat")},
+		{"c08_body_parseYAMLInt", funcBody(yn, "", ynInt)},
+		{"c08_body_parseYAMLFloat", funcBody(yn, "", ynFloat)},
 		{"c08_body_toInt", funcBody(ip, "", "toInt")},
 		{"c08_body_toInt64", funcBody(ip, "", "toInt64")},
 		{"c08_body_toFloat", funcBody(ip, "", "toFloat")},
